@@ -1,5 +1,5 @@
 """C14 - every request completes exactly once (spec/Request.tla)."""
-from checks import _request, _callbacks
+from checks import _request, _callbacks, _driver
 
 META = {
     "property_id": "C14",
@@ -19,9 +19,12 @@ META = {
 def run(ctx):
     _request.run(ctx, "C14")
     _callbacks.run(ctx)          # the add_callback || _set_final_* race at lock / line granularity (spec/Callbacks.tla)
+    _driver.system_tier(ctx, "C14")     # thorough: whole-driver runs against spec/Driver.tla, rejections owned by C14
 
 
 def replay(ctx, obj):
+    if _driver.is_system_replay(obj):
+        return _driver.replay_system(ctx, obj)
     if obj.get("callbacks"):
         _callbacks.replay(ctx, obj)
     else:
